@@ -22,5 +22,5 @@ OBLIGATIONS = [
     ob('rrule_date_parts_nv2', ['RRUL', 'NV=2', 'PRESENT=11'], enc=['send_rrul', '__evrrul_key'], sym='two values each of BYMONTH, BYMONTHDAY, BYWEEKNO; INTERVAL, COUNT, FREQ', bounds='BYMONTH+BYMONTHDAY+BYWEEKNO, two values each'),
     ob('rrule_setpos_yearday_nv2', ['RRUL', 'NV=2', 'PRESENT=132'], enc=['send_rrul', '__evrrul_key'], sym='two values each of BYYEARDAY, BYSETPOS', bounds='BYYEARDAY+BYSETPOS, two values each'),
     ob('rrule_byday_nv2', ['RRUL', 'NV=2', 'PRESENT=256'], enc=['send_rrul', 'send_cd', 'snarf_wday'], sym='two BYDAY entries with ordinals', bounds='BYDAY, two entries', timeout=2400),
-    ob('task_numeric_fields', ['TASKNUM'], enc=['send_task', 'snarf_fld', 'make_task', '__evical_fld'], sym='umask, max-simul, mail flags', bounds='all stored values incl. unset'),
+    ob('task_numeric_fields', ['TASKNUM'], enc=['send_task', 'snarf_fld', 'make_task', '__evical_fld'], sym='umask, max-simul, mail flags', bounds='all stored values incl. unset', tiers=('thorough',), timeout=3400),
 ]
